@@ -1158,8 +1158,11 @@ public:
     operator SafeBool() const { return suffix_; }
 
     /// Sets the suffix value.
+    /// An index beyond the suffix size is ignored (e.g., an objective
+    /// suffix of a model without objectives has no entries).
     void SetValue(int index, T value) {
-      suffix_.set_value(index, value);
+      if (index < suffix_.num_values())
+        suffix_.set_value(index, value);
     }
   };
 
